@@ -24,7 +24,9 @@ RULE = (
     "symbol_table::drop before scope::drop_tokens (the stated precondition). R5 a language-server function that reads a source file from disk to "
     "analyse it does so only where document_map.contains_key(src) returned false. R6 in Server::serve the DidOpen and DidChange arms record "
     "the message's own (url, text, version) in latest_change on every path after the handler. R7 in code statically reachable from "
-    "Analyzer::drop_file a match on the TokenSource of a Symbol's own token names File and Generated (both carry the file's path) together or not at all."
+    "Analyzer::drop_file a match on the TokenSource of a Symbol's own token names File and Generated (both carry the file's path) together or not at all. R8 every field of scope::Scope (an arena element "
+    "that survives a drop because scopes are interned by name) that the analysis passes fill is also edited by code statically reachable from "
+    "drop_file; identity fields are exempt."
 )
 
 CRATES = ["veryl_parser", "veryl_analyzer", "veryl_metadata", "veryl_ls.bin", "veryl_cache", "veryl_path"]
@@ -278,6 +280,33 @@ def run(world, tier, info, only=None):
                   "File and Generated (both carry the file's path) are both matched explicitly, or neither" if ok else
                   "%s has its own arm but %s falls into the wildcard arm: symbols or tokens whose source is the other path-carrying variant of the same "
                   "file are not dropped" % (explicit[0], [x for x in carrying if x not in explicit][0]))
+    # ---------------- R8 arena elements that outlive a drop: every field the analysis fills is emptied by the drop ----------------
+    ARENA = {"veryl_analyzer::scope::Scope": {"kind": "set once when the scope is interned: part of its structural identity, the same for every analysis of the file",
+                                              "id": "identity", "parent": "identity", "name": "identity"}}
+    for adt, exempt in sorted(ARENA.items()):
+        def fields(reach):
+            out = {}
+            for q in reach:
+                sm = w.fns.get(q)
+                if not sm:
+                    continue
+                for key in ("fw", "fm"):
+                    for a, fld in [tuple(x) for x in (sm.get(key) or [])]:
+                        if a == adt:
+                            out.setdefault(fld, set()).add(q.split("::")[-1])
+            return out
+        fa, fd = fields(reach_w), fields(reach_d)
+        ck.floor("R8", "fields of %s filled during analysis" % adt.split("::")[-1], len(fa), 5)
+        for fld in sorted(fa):
+            if fld in exempt:
+                ck.ob("R8", "arena-field-dropped:%s.%s" % (adt.split("::")[-1], fld), True, site(w.fns[DROP]), "exempt: " + exempt[fld])
+                continue
+            ok = fld in fd
+            ck.ob("R8", "arena-field-dropped:%s.%s" % (adt.split("::")[-1], fld), ok, site(w.fns[DROP]),
+                  "%s.%s (filled by %s) is edited by drop_file through %s" % (adt.split("::")[-1], fld, sorted(fa[fld])[:3], sorted(fd.get(fld, []))[:3]) if ok else
+                  "%s.%s is filled while a file is analysed (%s) and nothing reachable from Analyzer::drop_file touches it: scopes are interned by name, so "
+                  "the re-analysis of an edited file finds what its earlier contents put there (a deleted import keeps resolving)" % (
+                      adt.split("::")[-1], fld, sorted(fa[fld])[:3]))
     ck.analysed = {"written": sorted(W), "dropped": sorted(D), "exempt": sorted(k for k in W if k in EXEMPT), "undecided": sorted(k for k in W if k in UNDECIDED)}
     return ck.finish(info)
 
